@@ -70,11 +70,10 @@ static int r_c300(int argc, char **argv, char *, int)
     return 42;
 }
 static const std::string NAME300(300, 'c'); // a 300-character command name, only in the tables of the long sub-checks
-// command names are held like the inputs: exactly sized, the terminator is the last accessible byte
-// (slot 7 of the guard pool is reserved for them, they live for the whole run)
-static const char *N_A = (new CS("a", 7))->p;
-static const char *N_AB = (new CS("ab", 7))->p;
-static const char *N_C300 = (new CS(NAME300, 7))->p;
+// command names are const: read-only memory, exactly sized, the terminator is the last accessible byte
+static const char *N_A = frozen_cstr("a");
+static const char *N_AB = frozen_cstr("ab");
+static const char *N_C300 = frozen_cstr(NAME300);
 static const struct mshell_command ML_BOTH[] = {{N_A, m_a, "first"}, {N_AB, m_ab, nullptr}, {N_C300, m_c300, nullptr}, {nullptr, nullptr, nullptr}};
 static const struct mshell_command ML_T2[] = {{N_AB, m_ab, nullptr}, {N_C300, m_c300, "long"}, {nullptr, nullptr, nullptr}};
 static const struct rshell_command RL_BOTH[] = {{N_A, r_a, "first"}, {N_AB, r_ab, nullptr}, {N_C300, r_c300, nullptr}, {nullptr, nullptr, nullptr}};
@@ -197,55 +196,31 @@ static void ctx(const char *fn, const LineRef &ref, const Str &s, const char *su
 static void check_shells(const Str &s, int which_family, bool longtab = false, const char *sfx_in = nullptr)
 {
     LineRef ref = line_ref(s, longtab);
-    const char *sfx = sfx_in ? sfx_in : longtab ? ".long_input" : "";
-    if (which_family == 0)
-    {
+    const char *sfx0 = sfx_in ? sfx_in : longtab ? ".long_input" : "";
+    static const char *FN[4] = {"mshell_execute", "mshell_tables_execute", "rshell_execute", "rshell_tables_execute"};
+    // every dispatcher with and without the optional result pointer: the handler must run either way
+    for (int d = which_family * 2; d < which_family * 2 + 2; d++)
+        for (int null_ret = 0; null_ret < 2; null_ret++)
         {
-            CS b(s);
-            g_calls.clear();
-            g_line = b.p;
-            int ret = -7;
-            ctx("mshell_execute", ref, s, sfx);
-            int rc = mshell_execute(b.p, longtab ? ML_BOTH : M_BOTH, &ret);
-            mc::crash_context("C19.harness");
-            check_dispatch("mshell_execute", s, ref, 0, rc, sfx);
-        }
-        {
-            CS b(s);
-            g_calls.clear();
-            g_line = b.p;
-            int ret = -7;
-            ctx("mshell_tables_execute", ref, s, sfx);
-            int rc = mshell_tables_execute(b.p, longtab ? ML_TABLES : M_TABLES, &ret);
-            mc::crash_context("C19.harness");
-            check_dispatch("mshell_tables_execute", s, ref, 0, rc, sfx);
-        }
-    }
-    else
-    {
-        {
+            Str sfx = Str(sfx0) + (null_ret ? ".null_retptr" : "");
             CS b(s);
             Exact out(4, 1);
             g_calls.clear();
             g_line = b.p;
-            int ret = -7;
-            ctx("rshell_execute", ref, s, sfx);
-            int rc = rshell_execute(b.p, longtab ? RL_BOTH : R_BOTH, &ret, 0, out.p, (int)out.n);
+            int ret = -7, rc;
+            int *rp = null_ret ? nullptr : &ret;
+            ctx(FN[d], ref, s, sfx.c_str());
+            if (d == 0)
+                rc = mshell_execute(b.p, longtab ? ML_BOTH : M_BOTH, rp);
+            else if (d == 1)
+                rc = mshell_tables_execute(b.p, longtab ? ML_TABLES : M_TABLES, rp);
+            else if (d == 2)
+                rc = rshell_execute(b.p, longtab ? RL_BOTH : R_BOTH, rp, 0, out.p, (int)out.n);
+            else
+                rc = rshell_tables_execute(b.p, longtab ? RL_TABLES : R_TABLES, rp, out.p, (int)out.n);
             mc::crash_context("C19.harness");
-            check_dispatch("rshell_execute", s, ref, 0, rc, sfx);
+            check_dispatch(FN[d], s, ref, (d == 3 && ref.which >= 1) ? 1 : 0, rc, sfx.c_str()); // second rshell table drops argv[0]
         }
-        {
-            CS b(s);
-            Exact out(4, 1);
-            g_calls.clear();
-            g_line = b.p;
-            int ret = -7;
-            ctx("rshell_tables_execute", ref, s, sfx);
-            int rc = rshell_tables_execute(b.p, longtab ? RL_TABLES : R_TABLES, &ret, out.p, (int)out.n);
-            mc::crash_context("C19.harness");
-            check_dispatch("rshell_tables_execute", s, ref, ref.which >= 1 ? 1 : 0, rc, sfx); // second table drops argv[0]
-        }
-    }
 }
 
 // argvc_internal_split on a terminated line with exactly argcmax argv slots
@@ -324,7 +299,7 @@ MC_INIT
         if (r.which >= 0 || (r.runs.empty() && !s.empty()))
             mc::nontrivial(); // dispatches, or is a blank line
         check_shells(s, 0);
-        mc::more_cases(1);
+        mc::more_cases(3);
     });
     mc::add_check("rshell", [] {
         Str s = enum_str(SIGMA, NSIG, line_len(), 2);
@@ -333,7 +308,7 @@ MC_INIT
         if (r.which >= 0 || (r.runs.empty() && !s.empty()))
             mc::nontrivial();
         check_shells(s, 1);
-        mc::more_cases(1);
+        mc::more_cases(3);
     });
 
     // lines with 1..13 words: the 10-slot argv of the dispatchers and argcmax of the splitters
